@@ -2,8 +2,10 @@ package canary
 
 import (
 	"crypto/ecdsa"
+	"crypto/ed25519"
 	"crypto/elliptic"
 	"crypto/rand"
+	"crypto/rsa"
 	"crypto/x509"
 	"encoding/base64"
 	"encoding/hex"
@@ -89,6 +91,48 @@ func TestFormsAreFound(t *testing.T) {
 			"noise-b64": []byte(base64.StdEncoding.EncodeToString(noise)), "noise-hex": []byte(hex.EncodeToString(noise))} {
 			if h := s.ScanDeep(data, 2, false); len(h) != 0 {
 				t.Errorf("negative %s matched: %v", name, h)
+			}
+		}
+	}
+}
+
+func TestGoFormattingOfOtherKeyTypes(t *testing.T) {
+	for round := 0; round < 20; round++ {
+		rk, _ := rsa.GenerateKey(rand.Reader, 1024)
+		_, ed, _ := ed25519.GenerateKey(rand.Reader)
+		p384, _ := ecdsa.GenerateKey(elliptic.P384(), rand.Reader)
+		for name, raw := range map[string]any{"rsa": rk, "ed": ed, "p384": p384} {
+			der, err := x509.MarshalPKCS8PrivateKey(raw)
+			if err != nil {
+				t.Fatal(err)
+			}
+			k, err := ParsePEM(name, pem.EncodeToMemory(&pem.Block{Type: "PRIVATE KEY", Bytes: der}))
+			if err != nil {
+				t.Fatal(err)
+			}
+			s := NewSet()
+			s.Add(k.Patterns()...)
+			js, _ := json.Marshal(raw)
+			forms := map[string][]byte{
+				"%v":   []byte(fmt.Sprintf("unsupported key (type=%v)", raw)),
+				"%+v":  []byte(fmt.Sprintf("%+v", raw)),
+				"%s":   []byte(fmt.Sprintf("%s", raw)),
+				"%x":   []byte(fmt.Sprintf("%x", raw)),
+				"json": js,
+			}
+			if name == "ed" {
+				forms["%#v"] = []byte(fmt.Sprintf("%#v", raw))
+				forms["%X"] = []byte(fmt.Sprintf("%X", raw))
+				forms["%d"] = []byte(fmt.Sprintf("%d", raw))
+			}
+			if name == "rsa" {
+				forms["D%x"] = []byte(fmt.Sprintf("d=%x", rk.D))
+				forms["pkcs1-b64"] = []byte(base64.StdEncoding.EncodeToString(x509.MarshalPKCS1PrivateKey(rk)))
+			}
+			for f, data := range forms {
+				if len(s.ScanDeep(data, 2, false)) == 0 {
+					t.Errorf("round %d: %s formatted with %s not recognised: %.120s", round, name, f, data)
+				}
 			}
 		}
 	}
